@@ -435,6 +435,34 @@ impl RenderContext {
             return Err(Error::UninitializedLfFrame(header.lf_level));
         }
 
+        // Check if blending sources cover the entire canvas. Regular frames are saved after
+        // blending, but reference-only frames are saved as is.
+        if header.frame_type.is_normal_frame() && !header.resets_canvas {
+            let size = &image_header.size;
+            let it = std::iter::once(&header.blending_info).chain(&header.ec_blending_info);
+            for blending_info in it {
+                let ref_idx = self.reference[blending_info.source as usize];
+                let Some(ref_frame) = self.frames.get(ref_idx) else {
+                    continue;
+                };
+                let ref_header = ref_frame.header();
+                if ref_header.frame_type == FrameType::ReferenceOnly
+                    && (ref_header.width < size.width || ref_header.height < size.height)
+                {
+                    tracing::error!(
+                        source = blending_info.source,
+                        width = ref_header.width,
+                        height = ref_header.height,
+                        "Cropped reference frame is used as a blending source"
+                    );
+                    return Err(jxl_bitstream::Error::ValidationFailed(
+                        "cropped reference frame is used as a blending source",
+                    )
+                    .into());
+                }
+            }
+        }
+
         self.loading_frame = Some(IndexedFrame::new(frame, self.frames.len()));
         Ok(self.loading_frame.as_mut().unwrap())
     }
